@@ -204,6 +204,8 @@ class HTTP(BaseComponent):
     def _on_disconnect(self, sock):
         if sock in self._clients:
             del self._clients[sock]
+        if sock in self._buffers:
+            del self._buffers[sock]
 
     @handler('read')  # noqa
     def _on_read(self, sock, data):
